@@ -1,0 +1,63 @@
+//go:build verif
+
+package tlcp
+
+// Hook for the scripted peer (build tag `verif` only, add-only): an impostor that could NOT
+// recover the pre-master secret (it does not hold the key-exchange private key) tries a list of
+// candidate pre-master secrets of its own choosing against the peer's first protected record
+// (its Finished), which is all an attacker on the wire can do. All cryptography is the package's
+// own (masterFromPreMasterSecret, keysFromMasterSecret, halfConn.decrypt).
+
+// GuessPreMaster is to be called after the peer's ChangeCipherSpec was read while the script had
+// no master secret. It waits for the peer's next record and tries cand(0) … cand(n-1) as
+// pre-master secret: the first candidate under which that record authenticates becomes the
+// script's master secret and read keys (the record itself is left to the next ReadMsg). It
+// returns the index of that candidate, or -1 when none fits (nothing is changed then).
+func (s *VerifScript) GuessPreMaster(n int, cand func(i int) []byte) int {
+	if len(s.master) > 0 || s.suite == nil || s.keysReady {
+		return -1
+	}
+	for {
+		if len(s.raw) >= recordHeaderLen && len(s.raw) >= recordHeaderLen+(int(s.raw[3])<<8|int(s.raw[4])) {
+			break
+		}
+		buf := make([]byte, 4096)
+		k, err := s.Conn.Read(buf)
+		s.raw = append(s.raw, buf[:k]...)
+		if k == 0 && err != nil {
+			return -1
+		}
+	}
+	rec := s.raw[:recordHeaderLen+(int(s.raw[3])<<8|int(s.raw[4]))]
+	cr, sr := s.randoms()
+	suite := s.suite
+	for i := 0; i < n; i++ {
+		master := masterFromPreMasterSecret(VersionTLCP, suite, cand(i), cr, sr)
+		_, clientMAC, serverMAC, clientKey, serverKey, clientIV, serverIV :=
+			keysFromMasterSecret(VersionTLCP, suite, master, cr, sr, suite.macLen, suite.keyLen, suite.ivLen)
+		rk, riv, rmac := clientKey, clientIV, clientMAC
+		if s.Role != "server" {
+			rk, riv, rmac = serverKey, serverIV, serverMAC
+		}
+		var hc halfConn
+		hc.version = VersionTLCP
+		if suite.aead == nil {
+			hc.prepareCipherSpec(VersionTLCP, suite.cipher(rk, riv, true), suite.mac(rmac))
+		} else {
+			hc.prepareCipherSpec(VersionTLCP, suite.aead(rk, riv), nil)
+		}
+		if err := hc.changeCipherSpec(); err != nil {
+			continue
+		}
+		if _, _, err := hc.decrypt(append([]byte(nil), rec...)); err != nil {
+			continue
+		}
+		s.setMaster(master)
+		s.prepareKeys()
+		if s.c.in.nextCipher != nil {
+			_ = s.c.in.changeCipherSpec()
+		}
+		return i
+	}
+	return -1
+}
